@@ -3,6 +3,7 @@ package rules
 import (
 	"fmt"
 	"go/ast"
+	"go/parser"
 	"go/token"
 	"regexp"
 	"sort"
@@ -98,6 +99,7 @@ type nenum struct {
 	overflow  bool
 	counter   *int
 	inlining  map[*ast.FuncDecl]bool
+	extraScan *ast.FuncLit   // function literal containing the analysed block (normBlock)
 	labels    map[string]int // label of a loop -> its depth
 	baseDepth int            // loop depth of the analysed block itself (normBlock): branches at this depth leave it
 }
@@ -194,6 +196,25 @@ func propagate(p bpath) bpath {
 	}
 	out := make(bpath, 0, len(p))
 	seenCall := map[string]int{}
+	// a numbered local that is stored into (as a base) or has methods with effects called on it names an object
+	object := map[string]bool{}
+	for _, ev := range p {
+		if ev.Kind == "set" {
+			if m := dollarRe.FindString(ev.Text); m != "" && strings.HasPrefix(ev.Text, m) && len(ev.Text) > len(m) && (ev.Text[len(m)] == '[' || ev.Text[len(m)] == '.') {
+				object[m] = true
+			}
+		}
+		if ev.Kind == "call" || ev.Kind == "ccall" {
+			if m := dollarRe.FindString(ev.Text); m != "" && strings.HasPrefix(ev.Text, m+".") {
+				rest := ev.Text[len(m)+1:]
+				for _, mm := range []string{"WriteString(", "WriteRune(", "WriteByte(", "Write(", "Reset(", "Grow(", "Discard("} {
+					if strings.HasPrefix(rest, mm) {
+						object[m] = true
+					}
+				}
+			}
+		}
+	}
 	for _, ev := range p {
 		ne := ev
 		if ev.Kind == "loop" {
@@ -211,7 +232,7 @@ func propagate(p bpath) bpath {
 					}
 				}
 				ne.Text = name + "=" + v
-				if plain(v) && !strings.Contains(v, name) {
+				if plain(v) && !strings.Contains(v, name) && !object[name] {
 					env[name] = "(" + v + ")"
 					if isAtomText(v) {
 						env[name] = v
@@ -229,7 +250,154 @@ func propagate(p bpath) bpath {
 		}
 		out = append(out, ne)
 	}
+	for i := range out {
+		out[i].Text = minParensEvent(out[i].Kind, out[i].Text)
+	}
 	return out
+}
+
+// minParensEvent removes the parentheses that substitution introduced where precedence does not need them.
+func minParensEvent(kind, text string) string {
+	if !strings.Contains(text, "(") {
+		return text
+	}
+	switch kind {
+	case "set":
+		// target op value: split at the first top-level assignment operator
+		for _, op := range []string{"+=", "-=", "*=", "/=", "|=", "&=", "="} {
+			if i := indexTop(text, op); i > 0 && (op != "=" || (text[i-1] != '=' && text[i-1] != '!' && text[i-1] != '<' && text[i-1] != '>' && (i+1 >= len(text) || text[i+1] != '='))) {
+				return minParens(text[:i]) + op + minParens(text[i+len(op):])
+			}
+		}
+		return text
+	case "return":
+		parts := splitTop(text, ",")
+		for i := range parts {
+			parts[i] = minParens(parts[i])
+		}
+		return strings.Join(parts, ",")
+	case "+", "call", "ccall":
+		return minParens(text)
+	}
+	return text
+}
+
+// indexTop returns the index of the first occurrence of sep outside brackets and quotes (-1 if none).
+func indexTop(s, sep string) int {
+	depth := 0
+	inStr := byte(0)
+	for i := 0; i < len(s); i++ {
+		ch := s[i]
+		if inStr != 0 {
+			if ch == '\\' {
+				i++
+			} else if ch == inStr {
+				inStr = 0
+			}
+			continue
+		}
+		switch ch {
+		case '"', '\'', '`':
+			inStr = ch
+		case '(', '[', '{':
+			depth++
+		case ')', ']', '}':
+			depth--
+		default:
+			if depth == 0 && strings.HasPrefix(s[i:], sep) {
+				return i
+			}
+		}
+	}
+	return -1
+}
+
+var minParensCache = map[string]string{}
+
+// minParens re-renders an expression text with only the parentheses precedence requires ("" stays "").
+func minParens(s string) string {
+	if s == "" || !strings.Contains(s, "(") {
+		return s
+	}
+	if v, ok := minParensCache[s]; ok {
+		return v
+	}
+	out := s
+	enc := strings.NewReplacer("$", "DOLLAR_", "#", "HASH_").Replace(s)
+	if e, err := parser.ParseExpr(enc); err == nil {
+		out = strings.NewReplacer("DOLLAR_", "$", "HASH_", "#").Replace(renderMin(e, 0))
+	}
+	minParensCache[s] = out
+	return out
+}
+
+// renderMin prints e without blanks, parenthesising a sub-expression only when its operator binds weaker than the
+// context requires.
+func renderMin(e ast.Expr, ctx int) string {
+	switch x := e.(type) {
+	case *ast.ParenExpr:
+		return renderMin(x.X, ctx)
+	case *ast.BinaryExpr:
+		pr := x.Op.Precedence()
+		s := renderMin(x.X, pr) + x.Op.String() + renderMin(x.Y, pr+1)
+		if pr < ctx {
+			return "(" + s + ")"
+		}
+		return s
+	case *ast.UnaryExpr:
+		s := x.Op.String() + renderMin(x.X, 6)
+		if ctx > 6 {
+			return "(" + s + ")"
+		}
+		return s
+	case *ast.StarExpr:
+		s := "*" + renderMin(x.X, 6)
+		if ctx > 6 {
+			return "(" + s + ")"
+		}
+		return s
+	case *ast.SelectorExpr:
+		return renderMin(x.X, 7) + "." + x.Sel.Name
+	case *ast.IndexExpr:
+		return renderMin(x.X, 7) + "[" + renderMin(x.Index, 0) + "]"
+	case *ast.SliceExpr:
+		lo, hi := "", ""
+		if x.Low != nil {
+			lo = renderMin(x.Low, 0)
+		}
+		if x.High != nil {
+			hi = renderMin(x.High, 0)
+		}
+		return renderMin(x.X, 7) + "[" + lo + ":" + hi + "]"
+	case *ast.TypeAssertExpr:
+		if x.Type == nil {
+			return renderMin(x.X, 7) + ".(type)"
+		}
+		return renderMin(x.X, 7) + ".(" + nospaceLit(x.Type) + ")"
+	case *ast.CallExpr:
+		var as []string
+		for _, a := range x.Args {
+			as = append(as, renderMin(a, 0))
+		}
+		ell := ""
+		if x.Ellipsis.IsValid() {
+			ell = "..."
+		}
+		return renderMin(x.Fun, 7) + "(" + strings.Join(as, ",") + ell + ")"
+	case *ast.KeyValueExpr:
+		return nospaceLit(x.Key) + ":" + renderMin(x.Value, 0)
+	case *ast.CompositeLit:
+		var es []string
+		for _, el := range x.Elts {
+			es = append(es, renderMin(el, 0))
+		}
+		t := ""
+		if x.Type != nil {
+			t = nospaceLit(x.Type)
+		}
+		return t + "{" + strings.Join(es, ",") + "}"
+	}
+	return nospaceLit(e)
 }
 
 // isAtomText: the text is a primary expression (no operator at all), so it needs no parentheses when substituted.
@@ -239,8 +407,22 @@ func isAtomText(v string) bool {
 
 // normBlock enumerates the paths of one block of fd (e.g. a loop body or a case clause) in fd's naming context.
 func (c *nctx) normBlock(fd *ast.FuncDecl, list []ast.Stmt) []bpath {
+	p, _ := c.normBlockNamed(fd, list)
+	return p
+}
+
+// normBlockNamed also returns the numbering of fd's multi-definition locals (name -> $n).
+func (c *nctx) normBlockNamed(fd *ast.FuncDecl, list []ast.Stmt) ([]bpath, map[string]string) {
 	n := 0
 	e := &nenum{c: c, cur: []nstate{{}}, counter: &n, inlining: map[*ast.FuncDecl]bool{fd: true}}
+	if len(list) > 0 {
+		ast.Inspect(fd.Body, func(nd ast.Node) bool {
+			if fl, ok := nd.(*ast.FuncLit); ok && fl.Body.Pos() <= list[0].Pos() && list[0].Pos() < fl.Body.End() {
+				e.extraScan = fl
+			}
+			return true
+		})
+	}
 	fr := e.newFrame(fd, nil, nil)
 	// loop variables of the loops enclosing the block
 	if len(list) > 0 {
@@ -264,7 +446,7 @@ func (c *nctx) normBlock(fd *ast.FuncDecl, list []ast.Stmt) []bpath {
 				// the variable bound by an enclosing type switch is the switched value
 				if as, ok := x.Assign.(*ast.AssignStmt); ok && x.Body.Pos() <= pos && pos < x.Body.End() {
 					if ta, ok := as.Rhs[0].(*ast.TypeAssertExpr); ok {
-						if b := nospace(as.Lhs[0]); b != "_" {
+						if b := nospaceLit(as.Lhs[0]); b != "_" {
 							fr.subst[b] = e.render(fr, ta.X)
 						}
 					}
@@ -276,13 +458,13 @@ func (c *nctx) normBlock(fd *ast.FuncDecl, list []ast.Stmt) []bpath {
 	}
 	e.stmts(fr, list)
 	if e.overflow {
-		return nil
+		return nil, nil
 	}
 	out := append([]bpath{}, e.finished...)
 	for _, s := range e.cur {
 		out = append(out, s.p)
 	}
-	return propagateAll(out)
+	return propagateAll(out), fr.multi
 }
 
 func (e *nenum) newFrame(fd *ast.FuncDecl, parent *nframe, subst map[string]string) *nframe {
@@ -319,10 +501,11 @@ func (e *nenum) newFrame(fd *ast.FuncDecl, parent *nframe, subst map[string]stri
 			}
 		}
 	}
-	ast.Inspect(fd.Body, func(n ast.Node) bool {
+	var scanRoot ast.Node
+	scan := func(n ast.Node) bool {
 		switch x := n.(type) {
 		case *ast.FuncLit:
-			return false
+			return n == scanRoot
 		case *ast.AssignStmt:
 			if len(x.Rhs) == 1 {
 				if ta, ok := x.Rhs[0].(*ast.TypeAssertExpr); ok && ta.Type == nil {
@@ -376,7 +559,13 @@ func (e *nenum) newFrame(fd *ast.FuncDecl, parent *nframe, subst map[string]stri
 			}
 		}
 		return true
-	})
+	}
+	ast.Inspect(fd.Body, scan)
+	if parent == nil && e.extraScan != nil {
+		// the analysed block lies inside a function literal of fd: its locals belong to the naming context too
+		scanRoot = e.extraScan
+		ast.Inspect(e.extraScan, scan)
+	}
 	// a local that names an object (an allocation, or something stored into / address-taken) keeps its identity
 	mutated := map[string]bool{}
 	ast.Inspect(fd.Body, func(n ast.Node) bool {
@@ -495,7 +684,7 @@ func (e *nenum) renderD(fr *nframe, x ast.Expr, depth int) string {
 		if v.Type == nil {
 			return e.renderD(fr, v.X, depth) + ".(type)"
 		}
-		return e.renderD(fr, v.X, depth) + ".(" + nospace(v.Type) + ")"
+		return e.renderD(fr, v.X, depth) + ".(" + nospaceLit(v.Type) + ")"
 	case *ast.StarExpr:
 		return "*" + e.renderD(fr, v.X, depth)
 	case *ast.UnaryExpr:
@@ -503,7 +692,7 @@ func (e *nenum) renderD(fr *nframe, x ast.Expr, depth int) string {
 	case *ast.BinaryExpr:
 		return e.renderD(fr, v.X, depth) + v.Op.String() + e.renderD(fr, v.Y, depth)
 	case *ast.KeyValueExpr:
-		k := nospace(v.Key)
+		k := nospaceLit(v.Key)
 		return k + ":" + e.renderD(fr, v.Value, depth)
 	case *ast.CompositeLit:
 		var es []string
@@ -512,7 +701,7 @@ func (e *nenum) renderD(fr *nframe, x ast.Expr, depth int) string {
 		}
 		t := ""
 		if v.Type != nil {
-			t = nospace(v.Type)
+			t = nospaceLit(v.Type)
 		}
 		return t + "{" + strings.Join(es, ",") + "}"
 	case *ast.CallExpr:
@@ -526,7 +715,7 @@ func (e *nenum) renderD(fr *nframe, x ast.Expr, depth int) string {
 		}
 		return e.renderD(fr, v.Fun, depth) + "(" + strings.Join(as, ",") + ell + ")"
 	}
-	return nospace(x)
+	return nospaceLit(x)
 }
 
 func (e *nenum) cond(fr *nframe, x ast.Expr, neg bool) string {
@@ -645,7 +834,7 @@ func (e *nenum) helperOf(fr *nframe, ce *ast.CallExpr) *ast.FuncDecl {
 		// method of the package called on the current receiver (or a value whose type is not resolved here)
 		if cur := fr.fd; cur.Recv != nil && len(cur.Recv.List) == 1 && len(cur.Recv.List[0].Names) == 1 {
 			if id, ok := f.X.(*ast.Ident); ok && id.Name == cur.Recv.List[0].Names[0].Name {
-				t := strings.TrimPrefix(nospace(cur.Recv.List[0].Type), "*")
+				t := strings.TrimPrefix(nospaceLit(cur.Recv.List[0].Type), "*")
 				d = e.c.funcs[t+"."+f.Sel.Name]
 			}
 		}
@@ -744,15 +933,36 @@ func (e *nenum) stmts(fr *nframe, list []ast.Stmt) {
 	}
 }
 
-func (e *nenum) bindRange(fr *nframe, x *ast.RangeStmt) {
+func (e *nenum) bindRange(fr *nframe, x *ast.RangeStmt) (initSet string) {
 	tag := fmt.Sprintf("#%d", e.depth)
 	xs := e.render(fr, x.X)
 	if id, ok := x.Key.(*ast.Ident); ok && id.Name != "_" {
 		fr.subst[id.Name] = tag
 	}
 	if id, ok := x.Value.(*ast.Ident); ok && id.Name != "_" {
+		assigned := false
+		ast.Inspect(x.Body, func(n ast.Node) bool {
+			if as, ok := n.(*ast.AssignStmt); ok {
+				for _, l := range as.Lhs {
+					if li, ok := l.(*ast.Ident); ok && li.Name == id.Name && as.Tok != token.DEFINE {
+						assigned = true
+					}
+				}
+			}
+			return true
+		})
+		if assigned {
+			// the loop variable is a copy that the body changes: an ordinary local starting as the element
+			delete(fr.subst, id.Name)
+			if _, ok := fr.multi[id.Name]; !ok {
+				*e.counter++
+				fr.multi[id.Name] = fmt.Sprintf("$%d", *e.counter)
+			}
+			return fr.multi[id.Name] + "=" + xs + "[" + tag + "]"
+		}
 		fr.subst[id.Name] = xs + "[" + tag + "]"
 	}
+	return ""
 }
 
 // bindFor recognises `for i := 0; i < len(X); i++` and returns X's rendering ("" if the loop has another form).
@@ -769,7 +979,7 @@ func (e *nenum) bindFor(fr *nframe, x *ast.ForStmt) string {
 	fr.subst[id.Name] = tag
 	be, ok := x.Cond.(*ast.BinaryExpr)
 	inc, isInc := x.Post.(*ast.IncDecStmt)
-	if nospace(as.Rhs[0]) == "0" && ok && be.Op == token.LSS && nospace(be.X) == id.Name && isInc && inc.Tok == token.INC && nospace(inc.X) == id.Name {
+	if nospaceLit(as.Rhs[0]) == "0" && ok && be.Op == token.LSS && nospaceLit(be.X) == id.Name && isInc && inc.Tok == token.INC && nospaceLit(inc.X) == id.Name {
 		if ce, ok := be.Y.(*ast.CallExpr); ok && callName(ce) == "len" && len(ce.Args) == 1 {
 			return e.render(fr, ce.Args[0])
 		}
@@ -953,8 +1163,11 @@ func (e *nenum) stmt(fr *nframe, s ast.Stmt) {
 		for k, v := range fr.subst {
 			saved[k] = v
 		}
-		e.bindRange(fr, x)
+		initSet := e.bindRange(fr, x)
 		e.add(pev{"loop", "range " + e.render(fr, x.X), x})
+		if initSet != "" {
+			e.add(pev{"set", initSet, x})
+		}
 		e.stmts(fr, x.Body.List)
 		fr.subst = saved
 		e.endIteration()
@@ -1076,7 +1289,7 @@ func (e *nenum) stmt(fr *nframe, s ast.Stmt) {
 		switch a := x.Assign.(type) {
 		case *ast.AssignStmt:
 			if ta, ok := a.Rhs[0].(*ast.TypeAssertExpr); ok {
-				bound = nospace(a.Lhs[0])
+				bound = nospaceLit(a.Lhs[0])
 				tagText = e.render(fr, ta.X)
 			}
 		case *ast.ExprStmt:
@@ -1096,7 +1309,7 @@ func (e *nenum) stmt(fr *nframe, s ast.Stmt) {
 			e.cur = e.clone(before)
 			var ts []string
 			for _, t := range cc.List {
-				ts = append(ts, nospace(t))
+				ts = append(ts, nospaceLit(t))
 			}
 			if cc.List == nil {
 				ts = []string{"default"}
@@ -1305,6 +1518,12 @@ func resolveAliases(p bpath) bpath {
 				lhs, rhs := e.Text[:i], e.Text[i+1:]
 				if dollarRe.MatchString(rhs) && dollarRe.FindString(rhs) == rhs && !strings.HasPrefix(lhs, "$") {
 					alias[rhs] = lhs
+				}
+				// a local read from a container element names that element (maps and slices are references)
+				if dollarRe.FindString(lhs) == lhs && lhs != "" && strings.HasSuffix(rhs, "]") && !strings.Contains(stripAsserts(rhs), "(") {
+					alias[lhs] = rhs
+				} else if dollarRe.FindString(lhs) == lhs && lhs != "" {
+					delete(alias, lhs)
 				}
 				for a, t := range alias {
 					if strings.HasPrefix(lhs, a+"[") || strings.HasPrefix(lhs, a+".") {
